@@ -79,6 +79,10 @@ def run_property(prop, tier, seed, mods, jobs=16, only='', rebaseline=False, t0=
         return 3
     unit_timeout = 180 if tier == 'quick' else 900
     results = run_units(units, verify_unit, nproc=jobs, unit_timeout=unit_timeout)
+    # units that died or ran out of time (machine under load, memory pressure) get a second, less contended run
+    again = [u for u in units if results.get(u[0], ('err',))[0] != 'ok']
+    if again and len(again) <= max(8, len(units) // 4):
+        results.update(run_units(again, verify_unit, nproc=max(2, jobs // 4), unit_timeout=2 * unit_timeout))
 
     known = load_known(prop)
     violations, undecided, checker_errors, known_hits = [], [], [], []
